@@ -1962,8 +1962,11 @@ class FileIterator(FileStorageFormatter):
             try:
                 h = self._read_txn_header(pos)
             except CorruptedDataError as err:
-                # If buf is empty, we've reached EOF.
-                if not err.buf:
+                # If buf is empty, we've reached EOF.  If it is shorter than
+                # a transaction header, the file ends in the beginning of a
+                # transaction that is being written (or was cut off by a
+                # crash): like read_index, stop there.
+                if len(err.buf) < TRANS_HDR_LEN:
                     break
                 raise
 
